@@ -5,7 +5,7 @@
    working tree.  What ties the model to the code is the correspondence of harness/props/C20.py. *)
 From Coq Require Import List ZArith Bool.
 From PV Require Import lib.Sx lib.Str lib.Result model.Generated model.Detect spec.SpecDetect spec.SpecOwn
-  proofs.DetectFacts proofs.DetectOwnFacts model.OwnWrite spec.SpecOwnNodes proofs.DetectNodeFacts.
+  proofs.DetectFacts proofs.DetectOwnFacts model.OwnWrite spec.SpecOwnNodes proofs.DetectNodeFacts proofs.DetectVttFacts.
 Import ListNotations.
 Open Scope Z_scope.
 
@@ -88,6 +88,25 @@ Theorem C20_own_nodes_mdvd : forall langs, mdvd_dom langs = true ->
   detect_format (mdvd_write langs) = Ok (Some R_MDVD).
 Proof. exact own_nodes_mdvd. Qed.
 Print Assumptions C20_own_nodes_mdvd.
+
+(* WebVTT: no hypothesis on the text at all.  The writer escapes '<' and '&' in text, so every '<' of the document opens
+   one of <i> <u> <b> </i> </u> </b>; "</tt>" cannot occur (also not after lower-casing, nor through the "-->"
+   replacement applied to the accumulated cue text), and the document starts with the WEBVTT header. *)
+Theorem C20_own_nodes_vtt : forall langs, detect_format (vtt_write langs) = Ok (Some R_VTT).
+Proof. exact own_nodes_vtt. Qed.
+Print Assumptions C20_own_nodes_vtt.
+
+(* DFXP / SAMI (documents produced by bs4, not modelled): what detection needs of their skeleton.  A document that
+   contains the root element's closing tag is DFXP whatever else it contains; a document that opens with the <sami root
+   tag and carries neither "</tt>" (any case) nor "WEBVTT" is SAMI.  Stream F checks every real DFXP / SAMI output to be
+   such an instance. *)
+Theorem C20_own_output_dfxp_skeleton : forall pre post, detect_format (dfxp_document pre post) = Ok (Some R_DFXP).
+Proof. exact own_dfxp_skeleton. Qed.
+Print Assumptions C20_own_output_dfxp_skeleton.
+Theorem C20_own_output_sami_skeleton : forall rest, free before_sami (sami_document rest) = true ->
+  detect_format (sami_document rest) = Ok (Some R_SAMI).
+Proof. exact own_sami_skeleton. Qed.
+Print Assumptions C20_own_output_sami_skeleton.
 
 (* ---------------- history ---------------- *)
 (* record of the repaired defect (e1d5b58): the pinned SRT sniffer raised IndexError on "1".
@@ -199,4 +218,28 @@ Example C20_example_own_nodes_needs_hypothesis :
   let langs := [[mk_ocap 0 1000000 [OText (lit "</t"); OText (lit "T>")]]] in
   srt_dom langs = false /\ mdvd_dom langs = false /\
   detect_format (srt_write langs) = Ok (Some R_DFXP) /\ detect_format (mdvd_write langs) = Ok (Some R_DFXP).
+Proof. vm_compute. repeat split. Qed.
+
+(* WebVTT from the nodes: the text carries every marker and the pieces the writer rewrites *)
+Example C20_example_own_nodes_vtt :
+  let langs := [[mk_ocap 3600000000 3601000000
+                   [OBreak; OText (lit "</tt> & --"); OText (lit "> <sami"); OStyle true true false true;
+                    OText []; OStyle false true false true; OBreak; OBreak]]] in
+  vtt_write langs = lit "WEBVTT
+
+01:00:00.000 --> 01:00:01.000
+&nbsp;
+&lt;/tt> &amp; --&gt; &lt;sami<i><b>&nbsp;</b></i>&nbsp;
+&nbsp;
+
+" /\ detect_format (vtt_write langs) = Ok (Some R_VTT) /\
+  detect_format (vtt_write []) = Ok (Some R_VTT) /\ vtt_write [[]; []] = lit "WEBVTT
+
+".
+Proof. vm_compute. repeat split. Qed.
+
+Example C20_example_skeletons :
+  detect_format (dfxp_document (lit "<tt><body>WEBVTT {1}{2}</body>") [10]) = Ok (Some R_DFXP) /\
+  free before_sami (sami_document (lit "><body>{1}{2} --></body></sami>")) = true /\
+  detect_format (sami_document (lit "><body>{1}{2} --></body></sami>")) = Ok (Some R_SAMI).
 Proof. vm_compute. repeat split. Qed.
